@@ -228,6 +228,8 @@ pub struct WorldA {
     pub events: Vec<renet::ServerEvent>,
     pub ev_state: HashMap<u64, bool>, // per id: currently connected per event stream
     pub api: apply::ApiState,
+    /// clients whose late `set_connected` the generator has already emitted (generator state)
+    pub late_done: u64,
 }
 
 #[derive(Clone, Copy, PartialEq, Eq, Debug)]
@@ -295,6 +297,7 @@ impl WorldA {
             events: Vec::new(),
             ev_state: HashMap::new(),
             api: apply::ApiState::default(),
+            late_done: 0,
         };
         w.server = RenetServer::new(w.conn_config());
         let ncl = cfg.get("ncl").max(1) as usize;
@@ -343,7 +346,11 @@ impl WorldA {
         } else {
             self.server.add_connection(id);
             let mut c = RenetClient::new(self.conn_config());
-            c.set_connected();
+            // (lateconn: the transport reports the connection as established only later in the run — an explicit Api operation
+            // chosen by the generator; a connecting client already sends and receives)
+            if self.cfg.get("lateconn") != 1 {
+                c.set_connected();
+            }
             c
         };
         // reference event queue (C12): every insertion is owed exactly one connect event, in order
@@ -553,6 +560,9 @@ pub fn gen_cfg(family: &str, rng: &mut Rng) -> Cfg {
     }
     if matches!(fam, Fam::Budget | Fam::Lossy) && rng.chance(1, 4) {
         cfg.set("halfms", 1);
+    }
+    if matches!(fam, Fam::Lossy) && rng.chance(1, 5) {
+        cfg.set("lateconn", 1);
     }
     if matches!(fam, Fam::Budget) && same_lists && rng.chance(1, 4) {
         // the clients are the server's own in-memory local clients (new_local_client), still joined to it by the simulated
